@@ -2,7 +2,7 @@
 
 Exhaustive enumeration of every signature with <= N parameters (N=5 quick,
 6 thorough) x every call shape x {function, bound method} x every ignore list
-of size <= 2 over the keys present; oracle = inspect.Signature.bind.
+of size <= 2 over the keys present; oracle = the binding the interpreter itself performs (functions return their locals).
 Thorough adds Hypothesis-sampled signatures with 7-8 parameters.
 """
 
@@ -19,13 +19,13 @@ RULE = (
     "{positional-only, positional-or-keyword, *args, keyword-only, **kwargs} x default/no default, "
     "all call shapes (n positional incl. surplus for *args, remaining by keyword or omitted, 0-2 surplus "
     "keywords for **kwargs incl. one spelled like a positional-only parameter), carriers function and bound "
-    "method, every ignore list of size <=2 over the keys of the expected mapping; calls Signature.bind rejects "
-    "are skipped.  evaluations = filter_args results compared.  A case is non-trivial when the signature has >=2 "
+    "method, every ignore list of size <=2 over the keys of the expected mapping; calls Python rejects "
+    "(TypeError) are skipped.  evaluations = filter_args results compared.  A case is non-trivial when the signature has >=2 "
     "parameter kinds or a default AND the call omits or keyword-passes >=1 parameter; distinct = (signature, call, "
     "carrier, ignore list)."
 )
 ASSUMPTIONS = [
-    "inspect.Signature.bind + apply_defaults is the reference for Python's binding",
+    "the interpreter itself is the reference for binding: generated functions return dict(locals()) (inspect.Signature.bind of 3.12 wrongly rejects a keyword named like a positional-only parameter)",
     "argument values are distinct string sentinels, so any mis-binding is visible",
     "ignore lists only name keys that exist (unknown names are documented to raise ValueError)",
 ]
